@@ -117,7 +117,7 @@ def _case(ctx, idx):
     proj.write(src)
     a0 = cases.analyse(src, base + proj.sources)
     seedable = [f for f in a0.findings if not cases.is_whole_program(f.id)]
-    proj2, inserted = supprgen.add_inline(rng, proj, seedable, frac=0.3, unmatched=rng.randint(0, 2))
+    proj2, inserted = supprgen.add_inline(rng, proj, seedable, frac=0.3, unmatched=rng.randint(0, 2), blocks=0.3)
     shutil.rmtree(src)
     proj2.write(src)
     cmd_suppr = []
